@@ -1,1 +1,321 @@
-import BigtreeModel.Basic
+import BigtreeProofs.Lemmas.BinStoreEffects
+/-!
+# C11 — a BinaryNode always has exactly a left and a right slot
+
+Model: `BigtreeModel/BinStore.lean` (statement-level model of binarynode.py after the `fix:`
+commits D2 and D7; `slots v` is the raw Python list `v._BinaryNode__children`).
+All theorems are about `step true` (checks on, the default configuration), for every operation,
+every argument (including `None`, objects that are not nodes, self, ancestors, repeated members,
+lists of any length), every hook fault, over every reachable state (induction on the history).
+-/
+
+namespace C11
+open BinStore
+
+/-! ## the invariant over all histories -/
+
+theorem bwf_init (n : Nat) : BWF (init n) := by
+  refine ⟨fun _ => rfl, fun c p h => ?_, fun p c h => ?_, fun p c => ?_, fun v => ?_, fun c p h => ?_⟩
+  · simp [init] at h
+  · simp [init] at h
+  · simp [init]
+  · exact ⟨v, fun q hq => by simp [IsParent, init] at hq⟩
+  · simp [init] at h
+
+/-- every operation, every argument, every fault keeps the store well-formed -/
+theorem bwf_step {s : Store} (h : BWF s) (op : Op) : BWF (step true s op).1 := bwf_step' h op
+
+theorem bwf_run {s : Store} (h : BWF s) : ∀ ops : List Op, BWF (run true s ops) := by
+  intro ops
+  induction ops generalizing s with
+  | nil => exact h
+  | cons op ops ih => exact ih (bwf_step h op)
+
+/-- every store reachable from fresh nodes is well-formed -/
+theorem bwf_reachable (n : Nat) (ops : List Op) : BWF (run true (init n) ops) := bwf_run (bwf_init n) ops
+
+example : BWF (run true (init 4)
+    [.children 0 (some [some 1, some 2]) .none, .parent 3 (some 1) .post, .left 1 (some 3) .none,
+     .parent 0 (some 3) .none, .del 0, .children 2 (some [some 1, some 1]) .none, .sort 1 true]) :=
+  bwf_reachable 4 _
+
+/-- the history of the example really builds and then dismantles links (it is not the empty store) -/
+example : dump (run true (init 4)
+    [.children 0 (some [some 1, some 2]) .none, .parent 3 (some 1) .post, .left 1 (some 3) .none]) =
+    [(none, [some 1, some 2]), (some 0, [some 3, none]), (some 0, [none, none]), (some 1, [none, none])] := by
+  decide
+
+/-- **exactly two slots**: in every reachable state the raw child list of every node has length 2
+(so `.left` / `.right` never raise `IndexError` and `len(node.children) == 2`) -/
+theorem two_slots_always (n : Nat) (ops : List Op) (v : Nat) :
+    ((run true (init n) ops).slots v).length = 2 := (bwf_reachable n ops).len2 v
+
+/-- each slot is empty or holds a node of the collection, and that node's parent is the owner of the slot -/
+theorem slot_holds_child (n : Nat) (ops : List Op) (p c : Nat)
+    (h : some c ∈ (run true (init n) ops).slots p) :
+    c < n ∧ p < n ∧ (run true (init n) ops).parent c = some p := by
+  have hw := bwf_reachable n ops
+  have hp := hw.down p c h
+  have hr := hw.range c p hp
+  have hn : (run true (init n) ops).n = n := run_n (bwf_init n) ops
+  rw [hn] at hr
+  exact ⟨hr.1, hr.2, hp⟩
+
+/-- a node occupies exactly one slot of its parent and no slot of any other node -/
+theorem one_slot_of_parent (n : Nat) (ops : List Op) (c p : Nat)
+    (h : (run true (init n) ops).parent c = some p) :
+    ((run true (init n) ops).slots p).count (some c) = 1 ∧
+    ∀ q, q ≠ p → some c ∉ (run true (init n) ops).slots q := by
+  have hw := bwf_reachable n ops
+  refine ⟨?_, fun q hq hm => ?_⟩
+  · have h1 := hw.distinct p c
+    have h2 := List.count_pos_iff.2 (hw.up c p h)
+    omega
+  · have := hw.down q c hm
+    rw [h] at this
+    exact hq (Option.some.inj this).symm
+
+/-! ## effects of the accepted operations -/
+
+/-- **Assigning a child to a slot empties the slot it came from.** `v.children = l` accepted
+(likewise `v.left = x`, `v.right = x`, which are `v.children = [x, v.right]` / `[v.left, x]`):
+a listed node `k` that sat in slot `i` of another node `q` leaves that slot empty, is in no slot of
+`q` any more, sits in `v`'s list, has parent `v`, and `v`'s list is exactly the assigned one. -/
+theorem slot_move {s : Store} (h : BWF s) (f : Fault) (v : Nat) (l new : List (Option Nat))
+    (hok : (setChildren true f s v l).2 = .ok) (hnew : normChildren l = some new)
+    {k q i : Nat} (hk : some k ∈ new) (hq : q ≠ v)
+    (hi : idx? (s.slots q) k = some i) :
+    ((setChildren true f s v l).1.slots q)[i]? = some none ∧
+    some k ∉ (setChildren true f s v l).1.slots q ∧
+    some k ∈ (setChildren true f s v l).1.slots v ∧
+    (setChildren true f s v l).1.parent k = some v ∧
+    (setChildren true f s v l).1.slots v = new := by
+  obtain ⟨c1, c2, hnorm, hval, esv, esq, ep⟩ := children_effect h f v l hok
+  rw [hnorm] at hnew
+  cases hnew
+  have hk' : c1 = some k ∨ c2 = some k := by
+    simp only [List.mem_cons, List.not_mem_nil, or_false] at hk
+    rcases hk with e | e
+    · exact Or.inl e.symm
+    · exact Or.inr e.symm
+  have hget := getElem?_of_idx? hi
+  refine ⟨?_, ?_, ?_, ?_, esv⟩
+  · rw [esq q hq]
+    cases c1 <;> cases c2 <;> simp [getElem?_clear, hget] at hk' ⊢ <;> grind
+  · rw [esq q hq]
+    rcases hk' with e | e
+    · subst e
+      cases c2 with
+      | none => simpa using not_mem_clear k _
+      | some k2 =>
+        have : k ≠ k2 := fun e => hval.distinct k rfl (by rw [e])
+        simp only [clearO_some, mem_clear this]
+        exact not_mem_clear k _
+    · subst e
+      cases c1 <;> simp [not_mem_clear]
+  · rw [esv]; simpa using hk
+  · rw [ep]; simp [hk']
+
+example : (setChildren true .none (run true (init 4) [.children 0 (some [some 1, some 2]) .none]) 3
+    [none, some 2]).2 = .ok ∧
+    idx? ((run true (init 4) [.children 0 (some [some 1, some 2]) .none]).slots 0) 2 = some 1 := by decide
+
+/-- `v.left = x` — the same statement through the `left` setter -/
+theorem slot_move_left {s : Store} (h : BWF s) (f : Fault) (v : Nat) (x r : Option Nat)
+    (hr : slotAt? s v 1 = some r) (hok : (setLeft true f s v x).2 = .ok)
+    {k q i : Nat} (hk : x = some k) (hq : q ≠ v)
+    (hi : idx? (s.slots q) k = some i) :
+    ((setLeft true f s v x).1.slots q)[i]? = some none ∧
+    (setLeft true f s v x).1.slots v = [some k, r] ∧ (setLeft true f s v x).1.parent k = some v := by
+  subst hk
+  simp only [setLeft, hr] at hok ⊢
+  have hn : normChildren [some k, r] = some [some k, r] := by simp [normChildren]
+  obtain ⟨h1, _, _, h4, h5⟩ := slot_move h f v _ _ hok hn (k := k) (by simp) hq hi
+  exact ⟨h1, h5, h4⟩
+
+/-- attaching by `parent` moves too: the slot of the old parent is emptied -/
+theorem slot_move_parent {s : Store} (h : BWF s) (f : Fault) (v : Nat) (np : Option Nat)
+    (hok : (setParent true f s v np).2 = .ok) {cp i : Nat} (hcp : s.parent v = some cp)
+    (hne : np ≠ some cp) (hi : idx? (s.slots cp) v = some i) :
+    ((setParent true f s v np).1.slots cp)[i]? = some none ∧
+    some v ∉ (setParent true f s v np).1.slots cp := by
+  obtain ⟨_, es, _⟩ := parent_effect h f v np hok
+  have hget := getElem?_of_idx? hi
+  have hsl : (setParent true f s v np).1.slots cp = clear v (s.slots cp) := by
+    rw [es]
+    cases np with
+    | none => simp [parentSlots, detached, hcp]
+    | some p =>
+      have : ¬ cp = p := fun e => hne (by rw [e])
+      simp [parentSlots, detached, hcp, this]
+  rw [hsl]
+  exact ⟨by simp [getElem?_clear, hget], not_mem_clear v _⟩
+
+/-- **Attaching by `parent` fills the first empty slot (left before right).** `v.parent = p`
+accepted: with `L` = the list of `p` once `v` has left its old slot, `v` is written at the index
+of the first `None` of `L`; every other list only loses `v`; `v`'s parent is `p`. -/
+theorem parent_first_empty {s : Store} (h : BWF s) (f : Fault) (v p : Nat)
+    (hok : (setParent true f s v (some p)).2 = .ok) :
+    ∃ j, firstNone (detached s v p) = some j ∧
+      (setParent true f s v (some p)).1.slots p = (detached s v p).set j (some v) ∧
+      (∀ x, x ≠ p → (setParent true f s v (some p)).1.slots x = detached s v x) ∧
+      (setParent true f s v (some p)).1.parent v = some p := by
+  obtain ⟨ep, es, e4⟩ := parent_effect h f v (some p) hok
+  obtain ⟨j, hj⟩ := e4 p rfl
+  refine ⟨j, hj, ?_, fun x hx => ?_, ?_⟩
+  · rw [es]; simp [parentSlots, hj]
+  · rw [es]; simp [parentSlots, hx]
+  · rw [ep]; simp
+
+/-- the same in two-slot notation, for a node that is not already a child of `p`:
+`[None, b]` becomes `[v, b]`, `[a, None]` (with `a` a node) becomes `[a, v]` -/
+theorem parent_left_before_right {s : Store} (h : BWF s) (f : Fault) (v p : Nat) (a b : Option Nat)
+    (hnp : s.parent v ≠ some p) (hsl : s.slots p = [a, b])
+    (hok : (setParent true f s v (some p)).2 = .ok) :
+    (setParent true f s v (some p)).1.slots p = if a = none then [some v, b] else [a, some v] := by
+  obtain ⟨j, hj, e1, _, _⟩ := parent_first_empty h f v p hok
+  have hd : detached s v p = [a, b] := by simp [detached, hnp, hsl]
+  rw [e1, hd]
+  rw [hd] at hj
+  cases a with
+  | none => simp [firstNone] at hj; subst hj; simp
+  | some a' =>
+    cases b with
+    | none => simp [firstNone] at hj; subst hj; simp
+    | some b' => simp [firstNone] at hj
+
+example : (setParent true .none (run true (init 3) [.parent 1 (some 0) .none]) 2 (some 0)).2 = .ok ∧
+    (setParent true .none (run true (init 3) [.parent 1 (some 0) .none]) 2 (some 0)).1.slots 0 = [some 1, some 2] := by
+  decide
+
+/-- **… or is refused when both are taken**, and then nothing changes -/
+theorem parent_full_rej {s : Store} (h : BWF s) (f : Fault) (v p a b : Nat)
+    (hsl : s.slots p = [some a, some b]) (ha : a ≠ v) (hb : b ≠ v) :
+    (setParent true f s v (some p)).2 = .rej ∧ (setParent true f s v (some p)).1 = s := by
+  have hrej : (setParent true f s v (some p)).2 = .rej := by
+    cases hout : (setParent true f s v (some p)).2 with
+    | rej => rfl
+    | ok =>
+      obtain ⟨j, hj, _⟩ := parent_first_empty h f v p hout
+      have hd : detached s v p = [some a, some b] := by
+        unfold detached
+        split
+        · have ha' : ¬ a = v := ha
+          have hb' : ¬ b = v := hb
+          simp [hsl, ha', hb']
+        · exact hsl
+      rw [hd] at hj
+      simp [firstNone] at hj
+  exact ⟨hrej, setParent_rej_id h true f v (some p) hrej⟩
+
+example : (run true (init 4) [.children 0 (some [some 1, some 2]) .none]).slots 0 = [some 1, some 2] := by
+  decide
+
+/-- **Deleting children empties both slots**: `del v.children` is always accepted, leaves
+`[None, None]`, makes exactly the former children roots and touches nothing else. -/
+theorem delChildren_empties_both {s : Store} (h : BWF s) (v : Nat) :
+    (delChildren s v).2 = .ok ∧
+    (delChildren s v).1.slots v = [none, none] ∧
+    (∀ x, x ≠ v → (delChildren s v).1.slots x = s.slots x) ∧
+    (∀ x, (delChildren s v).1.parent x = if s.parent x = some v then none else s.parent x) := by
+  obtain ⟨s1, hd, _, ep, es⟩ := delChildrenBody_spec h v
+  simp only [delChildren, hd]
+  refine ⟨by simp, by simp [es], fun x hx => by simp [es, hx], ep⟩
+
+example : (delChildren (run true (init 3) [.children 0 (some [some 1, some 2]) .none]) 0).1.parent 1 = none ∧
+    (run true (init 3) [.children 0 (some [some 1, some 2]) .none]).parent 1 = some 0 := by decide
+
+/-- `v.sort(key=…)`: only a node with two children is touched, its two children are kept or
+swapped as the key says; every parent and every other list is unchanged -/
+theorem sort_effect (s : Store) (v : Nat) (sw : Bool) :
+    (sortChildren s v sw).parent = s.parent ∧
+    (∀ x, x ≠ v → (sortChildren s v sw).slots x = s.slots x) ∧
+    (∀ a b, s.slots v = [some a, some b] →
+      (sortChildren s v sw).slots v = if sw then [some b, some a] else [some a, some b]) ∧
+    (∀ a b, s.slots v = [a, b] → a = none ∨ b = none → (sortChildren s v sw).slots v = [a, b]) := by
+  refine ⟨?_, fun x hx => ?_, fun a b hl => ?_, fun a b hl hn => ?_⟩
+  · simp only [sortChildren]; split <;> rfl
+  · simp only [sortChildren]; split <;> simp [hx]
+  · cases sw <;> simp [sortChildren, hl, List.filter]
+  · rcases hn with rfl | rfl
+    · cases b <;> simp [sortChildren, hl, List.filter]
+    · cases a <;> simp [sortChildren, hl, List.filter]
+
+/-! ## refusals -/
+
+/-- a parent that is the node itself, one of its descendants, or not a BinaryNode is refused -/
+theorem reject_loops {s : Store} (h : BWF s) (f : Fault) (v p : Nat)
+    (hbad : p = v ∨ ProperAnc s v p ∨ s.n ≤ p) : (setParent true f s v (some p)).2 = .rej := by
+  cases hout : (setParent true f s v (some p)).2 with
+  | rej => rfl
+  | ok =>
+    exfalso
+    obtain ⟨h1, h2, _⟩ := setParent_ok hout
+    simp [parentTypeBad] at h1
+    simp [parentLoopBad] at h2
+    rcases hbad with e | e | e
+    · exact h2.1 e
+    · exact h2.2 ((anc_complete h.acyc h.range).2 e)
+    · omega
+
+/-- a children list of the wrong length, with a member that is the node itself, one of its
+ancestors or not a BinaryNode, or with a repeated member (`node.left = node.right`) is refused -/
+theorem reject_loops_children {s : Store} (h : BWF s) (f : Fault) (v : Nat) (l : List (Option Nat))
+    (hbad : (l.length ≠ 0 ∧ l.length ≠ 2) ∨
+            (∃ k, some k ∈ l ∧ (k = v ∨ ProperAnc s k v ∨ s.n ≤ k)) ∨
+            (∃ k, l = [some k, some k])) :
+    (setChildren true f s v l).2 = .rej := by
+  cases hout : (setChildren true f s v l).2 with
+  | rej => rfl
+  | ok =>
+    exfalso
+    obtain ⟨c1, c2, hnorm, hval, _⟩ := children_effect h f v l hout
+    rcases hbad with ⟨h0, h2⟩ | ⟨k, hk, hb⟩ | ⟨k, rfl⟩
+    · simp [normChildren, h0, h2] at hnorm
+    · have hl : l = [c1, c2] := by
+        unfold normChildren at hnorm
+        by_cases h0 : l.length = 0
+        · have : l = [] := List.length_eq_zero_iff.1 h0
+          subst this; simp at hk
+        · simp only [h0, if_false] at hnorm
+          by_cases h2 : l.length = 2
+          · simpa [h2] using hnorm
+          · simp [h2] at hnorm
+      subst hl
+      have hk' : c1 = some k ∨ c2 = some k := by
+        simp only [List.mem_cons, List.not_mem_nil, or_false] at hk
+        rcases hk with e | e
+        · exact Or.inl e.symm
+        · exact Or.inr e.symm
+      rcases hb with e | e | e
+      · exact hval.ne_self k hk' e
+      · exact hval.not_anc k hk' ((anc_complete h.acyc h.range).2 e)
+      · have := hval.range k hk'; omega
+    · simp [normChildren] at hnorm
+      obtain ⟨rfl, rfl⟩ := hnorm
+      exact hval.distinct k rfl rfl
+
+example : ProperAnc (run true (init 3) [.parent 1 (some 0) .none, .parent 2 (some 1) .none]) 0 2 :=
+  (anc_complete (bwf_reachable 3 _).acyc (bwf_reachable 3 _).range).1 (by decide)
+
+/-- **successful or rejected**: a refused call (any operation, argument, fault) leaves every
+parent and every slot list exactly as it was -/
+theorem rejected_unchanged {s : Store} (h : BWF s) (op : Op) (hr : (step true s op).2 = .rej) :
+    (step true s op).1 = s := step_rej_id h op hr
+
+example : (step true (run true (init 3) [.children 0 (some [some 1, some 2]) .none])
+    (.children 1 (some [some 2, some 0]) .none)).2 = .rej := by decide
+
+/-! ## negative regression: the pinned pre-fix deleter (D2) -/
+
+/-- with `list.remove` instead of emptying the slot (`delChildrenPre`, the code before commit
+af5581a) the two-slot shape is lost: after `a.children = [b, c]; del a.children` node `a` has a
+list of length 0 (so `.left` raises `IndexError`) and then refuses every child. -/
+theorem prefix_deleter_breaks_two_slots :
+    ((delChildrenPre (run true (init 3) [.children 0 (some [some 1, some 2]) .none]) 0).1.slots 0).length = 0 ∧
+    (setParent true .none (delChildrenPre (run true (init 3) [.children 0 (some [some 1, some 2]) .none]) 0).1
+      1 (some 0)).2 = .rej ∧
+    ((delChildren (run true (init 3) [.children 0 (some [some 1, some 2]) .none]) 0).1.slots 0).length = 2 := by
+  decide
+
+end C11
